@@ -43,7 +43,7 @@ def R6F(body, ctx):
         while k > 0 and body[k - 1] in ' \t\n':
             k -= 1
         prev = body[k - 1] if k > 0 else ''
-        if prev.isalnum() or prev in '_)]?':
+        if prev and (prev.isalnum() or prev in '_)]?'):    # (`'' in s` is True: a call that starts the body has no predecessor)
             w = re.search(r'(%s)$' % IDENT, body[:k])
             if not (w and w.group(1) in _EXPR_KEYWORDS):
                 start = m.start() + 1
